@@ -2235,6 +2235,16 @@ func (c *Conn) handleIncomingPacket(
 
 	r := &recordlayer.RecordLayer{}
 	if err := r.Unmarshal(prepared.buf); err != nil {
+		if prepared.header.Epoch == 0 {
+			// Anybody can send an unprotected record. One whose content does
+			// not decode is an invalid record and is silently discarded, so
+			// that the association is preserved [RFC6347 Section-4.1.2.7];
+			// only the authenticated peer is answered with decode_error.
+			c.log.Debugf("discarded unprotected record that does not decode: %s", err)
+
+			return packetOutcome{}, nil
+		}
+
 		return packetOutcome{
 			responseAlert: &alert.Alert{Level: alert.Fatal, Description: alert.DecodeError},
 		}, err
